@@ -91,6 +91,7 @@ Theorem C19_uncaught_cycle_signal_refuted :
     observe (run fields true false (init reqs) sched) = [(true, [])] /\
     map ws (threads (run fields true false (init reqs) sched)) = [[]].
 Proof. exists c19_self, [[1]], [0; 0; 0]%nat. vm_compute. split; reflexivity. Qed.
+Print Assumptions C19_uncaught_cycle_signal_refuted.
 Example C19_self_reference_is_bound_late :
   observe (run c19_self src_thread_local src_lookups_catch_cycles (init [[1]]) [0; 0; 0]%nat) = [(false, [1])].
 Proof. vm_compute. reflexivity. Qed.
